@@ -89,7 +89,14 @@ def cases(tier, seed, phase):
             data = bytes(b & 0x7f for b in bytes.fromhex(wf['h']) + bytes.fromhex(wf['blank']) + bytes.fromhex(wf['body']))
             cfg = {'pipelining': rng.random() < 0.6, 'eightbit': True, 'smtputf8': False, 'size': None, 'ehlo500': False, 'queue': '250',
                    'tls': False, 'auth': False, 'reject': reject}
-            return {'kind': 'hopreject', 'transport': 'smtp', 'cfg': cfg, 'msgs': [{'sender': gen_addr(rng, False), 'rcpts': rcpts, 'data': data.hex()}]}
+            msgs = [{'sender': gen_addr(rng, False), 'rcpts': rcpts, 'data': data.hex()}]
+            if j % 3 == 0:
+                # a first message over the same (kept) connection every recipient of which the edge refuses: the transaction it leaves
+                # behind must not reach into the next message
+                bad = ['nobody%d@refused.example' % i for i in range(rng.choice([1, 2]))]
+                cfg['reject'] = reject + bad
+                msgs.insert(0, {'sender': gen_addr(rng, False), 'rcpts': bad, 'data': data.hex()})
+            return {'kind': 'hopreject', 'transport': 'smtp', 'cfg': cfg, 'msgs': msgs}
         yield mk
     # two HTTP deliveries in flight at the same edge at once: the head and part of the body of one request arrive, then the whole
     # other request, then the rest of the first
@@ -413,8 +420,14 @@ ADDR_RE = re.compile(rb'^[A-Za-z]+ [A-Za-z]+:<(.*)>( SIZE=\d+)?\r?\n$', re.S)
 def run_hop_reject(case, model):
     cfg = case['cfg']
     q, taps, servers, clients, results = run_hop_smtp(case, model)
-    m = case['msgs'][0]
     hits = []
+    if len(case['msgs']) == 2:
+        k0, c0 = results[0]
+        if not ((k0 == 'raised' and c0 == '550') or (k0 == 'ret' and all(c == '550' for c in c0))):
+            hits.append(hit('c06.result-differs-from-edge-reply.smtp', 'every recipient of the first message was refused with 550 and the relay reports something else',
+                            observed={'kind': k0, 'codes': c0}, expected='550'))
+        results = results[1:]
+    m = case['msgs'][-1]
     kind, codes = results[0]
     want = ['550' if r in cfg['reject'] else '250' for r in m['rcpts']]
     accepted = [r for r in m['rcpts'] if r not in cfg['reject']]
